@@ -53,7 +53,7 @@ TRUSTED = [
     "value conditions inside walkers are taken as 'leaf present and non-empty'; flags at their defaults",
     "int() of a \\d+ group is taken as total (the 4300-digit limit of CPython is outside the document model)",
 ]
-FLOORS = {"C02-WALK": 150, "C02-EXCL": 30, "C02-SINK": 6, "C02-FALLBACK": 20, "C02-BYTES": 24, "C02-REPEAT": 2, "C02-DATA": 2, "C02-ONCE": 100, "C02-TRIM": 8, "C02-BREAK": 8, "C02-ALT": 2}
+FLOORS = {"C02-WALK": 150, "C02-EXCL": 30, "C02-SINK": 6, "C02-FALLBACK": 20, "C02-BYTES": 24, "C02-REPEAT": 2, "C02-DATA": 2, "C02-ONCE": 100, "C02-TRIM": 8, "C02-BREAK": 8, "C02-ALT": 2, "C02-MEMBER": 3}
 
 # ------------------------------------------------------------------------------------------------ WALK
 
@@ -1480,4 +1480,17 @@ def rule_alt(ctx: Ctx) -> RuleReport:
     return rep
 
 
-RULES = [rule_walk, rule_excl, rule_sink, rule_fallback, rule_bytes, rule_repeat, rule_data, rule_once, rule_trim, rule_break, rule_alt]
+def rule_member(ctx: Ctx) -> RuleReport:
+    """'Every piece of body text ... appears': an archive member that is filtered out contributes no text at all. The member filter skips
+    exactly the documented classes (= C10-EXACT)."""
+    from sa.rules.c10 import rule_exact
+
+    rep = rule_exact(ctx)
+    rep.rule = "C02-MEMBER"
+    rep.description = "the archive member filter skips exactly the documented classes (hidden, __MACOSX, unsupported, nested archive): no supported, visible member loses its text"
+    for f in rep.findings:
+        f.rule = "C02-MEMBER"
+    return rep
+
+
+RULES = [rule_walk, rule_excl, rule_sink, rule_fallback, rule_bytes, rule_repeat, rule_data, rule_once, rule_trim, rule_break, rule_alt, rule_member]
